@@ -1,8 +1,10 @@
 SPECIFICATION Spec
 CONSTANTS
   H = 4
+  NBufs = 2
+  Design = "own"
   MaxBlocks = 255
   ReadSizes = {0, 1, 3, 4, 5, 9, 500, 509, 1012, 1016, 1019, 1020, 1021}
-INVARIANTS TypeOK ImplInv
-PROPERTIES Refines AbsErrorConsumesNothing AbsContiguous AbsFailsExactlyBeyondLimit AbsZeroReadIsNoop
+INVARIANTS TypeOK ImplInv ReaderOwnsItsState
+PROPERTIES Refines AbsErrorConsumesNothing AbsContiguous AbsFailsExactlyBeyondLimit AbsZeroReadIsNoop AbsScribbleIsInvisible ScribbleKeepsReaderState
 CHECK_DEADLOCK FALSE
